@@ -1,13 +1,18 @@
 (* Single entry point of the extracted model: one case in, one canonical ASCII line out. *)
 From Coq Require Import String.
-From Ruler Require Import Bytes Show Base62 Sha256 Bincode StateFiles.
+From Ruler Require Import Bytes Show Base62 Sha256 Bincode StateFiles Bundle RuleSyntax Parser TopoSort ShowRules.
 
 Inductive case :=
 | CEncode62 (b : bytes)
 | CDecode62 (s : bytes)
 | CSha256 (m : bytes)
 | CDeHistory (b : bytes)
-| CDeTable (b : bytes).
+| CDeTable (b : bytes)
+| CParse (content : bytes)
+| CParseAll (contents : list bytes)
+| CBundle (lines : list bytes)
+| CTopo (rules : list rule) (goal : option bytes)
+| CRuleTicket (r : rule).
 
 Definition show_dec_err (e : dec_err) : bytes :=
   match e with
@@ -29,4 +34,9 @@ Definition run_case (c : case) : bytes :=
   | CSha256 m => show_bytes (sha256 m)
   | CDeHistory b => show_de_history b
   | CDeTable b => show_de_table b
+  | CParse c => show_parse (parse c)
+  | CParseAll cs => show_parse (parse_all cs)
+  | CBundle ls => show_bundle (parse_lines ls)
+  | CTopo rs g => show_toposort (toposort rs g)
+  | CRuleTicket r => show_bytes (rule_ticket r)
   end.
